@@ -156,3 +156,125 @@ Example rprop_converges_on_square :
   exists x tr, rprop NumF Fsq noHK noCS P2 50 [1%float] = (Converged x, tr) /\
      PrimFloat.ltb (norm NumF (a_g (sq (QGrad x)))) (rp_eps P2) = true.
 Proof. exact Refuted.rprop_same_oracle_ok. Qed.
+
+(* ===================================================================================
+   Round 2: newton_root — newton.RunRoot (y = f(x), J = Jacobian) and newton.RunCrit
+   (y = grad f(x), J = Hessian).  For EVERY carrier, EVERY objective oracle [NF], EVERY
+   direction oracle [ND] (the linear solve / inverse, the LDL forcePD and the eigenvalue
+   Hessian modifications: whatever getDirection answers, including errors and panics),
+   hook [NHK], constraint callback [NCS], start point, parameter record and fuel. *)
+From ADV Require Import C07.ModelNewton C07.SpecNewton C07.ProofsNewton C07.ExamplesNewton C07.ProofsQuad.
+
+Section PropsNewton.
+Context {A : Type} (NM : Num A).
+Variable NF : nat -> list A -> nw_answer (A := A).
+Variable ND : nat -> Z -> list A -> list (list A) -> dir_ans (A := A).
+Variable NHK : nat -> nw_hookargs (A := A) -> bool.
+Variable NCS : nat -> list A -> bool.
+
+(* (1) outcome = Converged x -> passes_test x: the LAST evaluation of the objective was at
+   the returned point, succeeded, and passes |y| < epsilon (|f(x)| for RunRoot,
+   |grad f(x)| for RunCrit) *)
+Theorem newton_stop_condition : forall (P : nw_params) fuel x0 x tr,
+  newton_root NM NF ND NHK NCS P fuel x0 = (NwConv x, tr) ->
+  nwf NF ND NHK NCS tr /\ nw_stop_ok NM (nw_eps P) tr x.
+Proof. exact (newton_stop_l NM NF ND NHK NCS). Qed.
+
+(* every return with a nil error (stop test, hook stop, iteration cap) carries the point of
+   the last successful evaluation; a point that was only computed (x1 - t1) is never
+   returned without an error *)
+Theorem newton_returns_evaluated_point : forall (P : nw_params) fuel x0,
+  nw_point_evaluated (snd (newton_root NM NF ND NHK NCS P fuel x0)) (fst (newton_root NM NF ND NHK NCS P fuel x0)).
+Proof. exact (newton_evaluated_l NM NF ND NHK NCS). Qed.
+
+(* backtrack_exhausted -> outcome = Err: when the back-tracking loop ends because the
+   step was shrunk to nothing (x1 - t1 == x1 after k reductions by c), the iteration
+   returns the "line search failed" ERROR — never a point with a nil error *)
+Theorem newton_backtrack_exit_is_error : forall (P : nw_params) fuel x1 t1 tr tr',
+  nw_backtrack NM NCS P fuel x1 t1 tr = BTFail tr' ->
+  nw_advance NM NF NCS P fuel x1 t1 tr = AdvStop (NwErr NELineSearch x1) tr' /\
+  nw_is_err (NwErr NELineSearch x1) = true /\ nw_step_vanished NM (nw_c P) x1 t1.
+Proof. exact (nw_backtrack_exit_is_error_l NM NF NCS). Qed.
+
+(* with pure callbacks: "re-evaluated there" *)
+Theorem newton_stop_condition_reevaluated : forall (f : list A -> nw_answer (A := A)) eps tr x,
+  (forall k y, NF k y = f y) -> nwf NF ND NHK NCS tr -> nw_stop_ok NM eps tr x ->
+  n_err (f x) = false /\ ltb NM (norm NM (n_y (f x))) eps = true.
+Proof. exact (nw_stop_pure NM NF ND NHK NCS). Qed.
+
+(* (2) hook arguments: (J, y) are the objective's answer for the x passed with them *)
+Theorem newton_hook_arguments : forall (P : nw_params) fuel x0,
+  nw_hooks_ok (snd (newton_root NM NF ND NHK NCS P fuel x0)).
+Proof. exact (newton_hooks_l NM NF ND NHK NCS). Qed.
+Theorem newton_hook_arguments_reevaluated : forall (f : list A -> nw_answer (A := A)) tr h b,
+  (forall k y, NF k y = f y) -> nwf NF ND NHK NCS tr -> nw_hooks_ok tr -> In (NvHook h b) tr ->
+  nh_J h = n_J (f (nh_x h)) /\ nh_y h = n_y (f (nh_x h)).
+Proof. exact (nw_hooks_pure NF ND NHK NCS). Qed.
+
+(* (3) constraints: no non-error outcome carries a point the callback did not accept *)
+Theorem newton_constraints : forall (P : nw_params) fuel x0,
+  nw_point_accepted (nw_cons P) (snd (newton_root NM NF ND NHK NCS P fuel x0)) (fst (newton_root NM NF ND NHK NCS P fuel x0)).
+Proof. exact (newton_cons_l NM NF ND NHK NCS). Qed.
+Theorem newton_constraints_reevaluated : forall (c : list A -> bool) tr x,
+  (forall k y, NCS k y = c y) -> nwf NF ND NHK NCS tr -> nw_accepted true tr x -> c x = true.
+Proof. exact (nw_accepted_pure NF ND NHK NCS). Qed.
+
+(* (5) caps: at most 1 + MaxIterations evaluations, MaxIterations hook calls and
+   MaxIterations calls of getDirection, for every oracle *)
+Theorem newton_iteration_cap : forall (P : nw_params) fuel x0,
+  (nw_n_evals (snd (newton_root NM NF ND NHK NCS P fuel x0)) <= 1 + Z.to_nat (nw_maxit P))%nat /\
+  (nw_n_hooks (snd (newton_root NM NF ND NHK NCS P fuel x0)) <= Z.to_nat (nw_maxit P))%nat /\
+  (nw_n_dirs (snd (newton_root NM NF ND NHK NCS P fuel x0)) <= Z.to_nat (nw_maxit P))%nat.
+Proof. exact (newton_caps_l NM NF ND NHK NCS). Qed.
+End PropsNewton.
+
+(* the hypotheses are satisfiable and the back-tracking exit is reachable (binary64) *)
+Example newton_converges_on_square :
+  exists x tr, newton_root NumF (fun _ => sq2) solve1 noNHK noNCS Pn 100 [1%float] = (NwConv x, tr) /\
+     PrimFloat.ltb (norm NumF (n_y (sq2 x))) eps8 = true.
+Proof. exact newton_converges_on_square_l. Qed.
+Example newton_backtrack_exit_reached :
+  exists tr, newton_root NumF (fun _ => sq2) solve1 noNHK le125 Pc 3000 [1%float] = (NwErr NELineSearch [1.25%float], tr) /\
+     PrimFloat.ltb (norm NumF (n_y (sq2 [1.25%float]))) eps8 = false /\ nw_n_evals tr = 14%nat.
+Proof. exact newton_backtrack_exit_reached_l. Qed.
+
+(* ===== (5 of DESIGN) the quadratic corollary, over R, n dimensions =====
+   f(x) = 1/2 x'Ax - b'x, grad f x = A x - b, A x* = b, v'Av >= mu |v|^2:
+   |grad f x| < eps  ->  |x - x*| < eps / mu *)
+Theorem quadratic_distance : forall n (A : list (list R)) (b xs : list R) mu,
+  (0 < mu)%R -> length A = n -> length xs = n -> mdotv NumR A xs = b ->
+  (forall v, length v = n -> (mu * dot NumR v v <= dot NumR v (mdotv NumR A v))%R) ->
+  (forall x, length x = n -> mdotv NumR A (vsub NumR x xs) = vsub NumR (mdotv NumR A x) (mdotv NumR A xs)) ->
+  forall x eps, length x = n ->
+  (norm NumR (qgrad A b x) < eps)%R -> (norm NumR (vsub NumR x xs) < eps / mu)%R.
+Proof. exact quadratic_distance_l. Qed.
+(* diagonal A = diag(a), a_i >= mu > 0: no hypothesis left *)
+Theorem quadratic_distance_diag : forall mu a b x eps, (0 < mu)%R ->
+  length a = length x -> length b = length x -> Forall (fun ai => (mu <= ai)%R) a ->
+  (norm NumR (dgrad a b x) < eps)%R -> (norm NumR (vsub NumR x (dmin a b)) < eps / mu)%R.
+Proof. exact quadratic_distance_diag_l. Qed.
+(* so the stop-condition theorems give the distance claim (pure objective, carrier R) *)
+Theorem converged_quadratic_within_tolerance :
+  forall (F : nat -> query (A := R) -> answer (A := R)) HK CS (f : query (A := R) -> answer (A := R))
+    n A b xs mu eps tr x,
+  (0 < mu)%R -> length A = n -> length xs = n -> mdotv NumR A xs = b ->
+  (forall v, length v = n -> (mu * dot NumR v v <= dot NumR v (mdotv NumR A v))%R) ->
+  (forall y, length y = n -> mdotv NumR A (vsub NumR y xs) = vsub NumR (mdotv NumR A y) (mdotv NumR A xs)) ->
+  (forall k q, F k q = f q) -> (forall y, a_g (f (QGrad y)) = qgrad A b y) ->
+  length x = n -> wf F HK CS tr -> stop_ok NumR eps tr x ->
+  (norm NumR (vsub NumR x xs) < eps / mu)%R.
+Proof. exact stop_ok_gives_distance. Qed.
+Theorem newton_crit_quadratic_within_tolerance :
+  forall (NF : nat -> list R -> nw_answer (A := R)) ND NHK NCS (f : list R -> nw_answer (A := R))
+    n A b xs mu eps tr x,
+  (0 < mu)%R -> length A = n -> length xs = n -> mdotv NumR A xs = b ->
+  (forall v, length v = n -> (mu * dot NumR v v <= dot NumR v (mdotv NumR A v))%R) ->
+  (forall y, length y = n -> mdotv NumR A (vsub NumR y xs) = vsub NumR (mdotv NumR A y) (mdotv NumR A xs)) ->
+  (forall k y, NF k y = f y) -> (forall y, n_y (f y) = qgrad A b y) ->
+  length x = n -> nwf NF ND NHK NCS tr -> nw_stop_ok NumR eps tr x ->
+  (norm NumR (vsub NumR x xs) < eps / mu)%R.
+Proof. exact newton_crit_gives_distance. Qed.
+(* the hypotheses are satisfiable: A = diag(2, 3), mu = 2 *)
+Example quadratic_distance_instance :
+  (norm NumR (dgrad [2; 3] [2; 3] [1; 1]) < 1 -> norm NumR (vsub NumR [1; 1] (dmin [2; 3] [2; 3])) < 1 / 2)%R.
+Proof. exact quadratic_distance_instance_l. Qed.
